@@ -702,7 +702,7 @@ func (g *Gen) Generate() {
 
 func (g *Gen) posString(p token.Pos) string {
 	pp := g.eng.fset.Position(p)
-	return fmt.Sprintf("%s:%d", pp.Filename, pp.Line)
+	return fmt.Sprintf("%s:%d", realPath(pp.Filename), pp.Line)
 }
 
 func (g *Gen) allProps() []string {
@@ -824,6 +824,37 @@ func (g *Gen) processBlock(b *ssa.BasicBlock) {
 					if g.out[e.p].inv[k] != v {
 						delete(st.inv, k)
 					}
+				}
+			}
+			// what each predecessor knew (possibly about an older heap version: instances are formulas over
+			// immutable version names) remains true on the paths through that predecessor
+			st.prev = map[string]string{}
+			names := map[string]bool{}
+			for _, e := range edges {
+				for k := range g.out[e.p].inv {
+					names[k] = true
+				}
+				for k := range g.out[e.p].prev {
+					names[k] = true
+				}
+			}
+			for _, k := range sortedKeys(names) {
+				var hs []string
+				for _, e := range edges {
+					po := g.out[e.p]
+					var fs []string
+					if t := po.inv[k]; t != "" {
+						fs = append(fs, t)
+					}
+					if t := po.prev[k]; t != "" && t != po.inv[k] {
+						fs = append(fs, t)
+					}
+					if len(fs) > 0 {
+						hs = append(hs, fmt.Sprintf("(=> %s (and %s))", e.cond, strings.Join(fs, " ")))
+					}
+				}
+				if len(hs) > 0 {
+					st.prev[k] = "(and " + strings.Join(hs, " ") + ")"
 				}
 			}
 			// join heaps
